@@ -28,6 +28,8 @@ Line ==
        \* a pipe describes the actual connection and the endpoint that created it
        [] e.k = "opipe" -> e.local /\ e.remote /\ e.dialer /\ e.listener /\ e.addr /\ e.idok /\ UNCHANGED vars
        [] e.k \in {"opipetls", "opipepid"} -> e.ok = TRUE /\ UNCHANGED vars
+       \* the accepting side's view of the connection is the dialing side's the other way round, on the bound port
+       [] e.k = "opipex" -> e.ok = TRUE /\ UNCHANGED vars
        \* ... and the process at its far end (its process, user and group id, each its own)
        [] e.k = "opipecred" -> e.pid = TRUE /\ e.uid = TRUE /\ e.gid = TRUE /\ UNCHANGED vars
        \* changing a queue length never disconnects a peer
